@@ -1,7 +1,9 @@
 (* Replays mapsettrace lines on the extracted model (MapsetModel.step, elements = OCaml ints
-   compared with (=), zero value 0) and evaluates the property itself -- the set-theoretic
-   answers, computed here on sorted duplicate-free int lists without any use of the model -- on
-   the implementation's own outputs. *)
+   compared with (=), zero value 0; the allocator's frontier threaded as in MapsetModel.run) and
+   evaluates the property itself -- the set-theoretic answers and the identity rules (constructors
+   return a map never seen before, mutators return their receiver, no two variables share a map),
+   computed here on sorted duplicate-free int lists and on the implementation's own dumps, without
+   any use of the model -- on the implementation's outputs. *)
 
 let eqb (a : int) (b : int) = a = b
 let zero = 0
@@ -26,6 +28,7 @@ let parse_case inp =
 
 let var k s = let i = int_of' s in if i < 0 || i >= k then raise Bad_syntax else nat_of_int i
 let nth_arg p n = match List.nth_opt p n with Some x -> x | None -> "."
+let is_int s = s <> "" && (let ok = ref true in String.iteri (fun i c -> if not ((c >= '0' && c <= '9') || (i = 0 && c = '-' && String.length s > 1)) then ok := false) s; !ok)
 
 (* Orders of map iterations that are not observable in the result are supplied as the key list
    of the operand the model says is ranged over (any enumeration would do: the theorems say the
@@ -34,18 +37,19 @@ let nth_arg p n = match List.nth_opt p n with Some x -> x | None -> "."
 let build_op k st p : int M.op =
   let v n = var k (nth_arg p n) in
   let l n = ints_of' (nth_arg p n) in
+  let lnil n = if nth_arg p n = "nil" then [] else l n in
   match List.hd p with
   | "new" -> M.ONew (v 1, l 2)
-  | "newsize" -> let n = int_of' (nth_arg p 2) in if n < 0 then raise Bad_syntax else M.ONewSize (v 1, z_of_int n)
+  | "newsize" -> let n = nth_arg p 2 in if not (is_int n) then raise Bad_syntax else M.ONewSize (v 1, z_of_string n)
   | "nil" -> M.ONil (v 1)
   | "clone" -> M.OClone (v 1, v 2)
   | "isect" ->
     let js = List.map (fun j -> if j < 0 || j >= k then raise Bad_syntax else nat_of_int j) (l 2) in
     let ord = match M.intersect_operand (List.map st js) with M.Ok m -> M.m_keys m | _ -> [] in
     M.OIntersect (v 1, js, ord)
-  | "range" -> M.ORange (v 1, l 2)
-  | "keys" -> M.OKeys (v 1, dedup_first (l 2))
-  | "values" -> M.OValues (v 1, l 2)
+  | "range" -> M.ORange (v 1, if nth_arg p 2 = "nil" then None else Some (l 2))
+  | "keys" -> M.OKeys (v 1, dedup_first (lnil 2))
+  | "values" -> M.OValues (v 1, lnil 2)
   | "add" -> M.OAdd (v 1, l 2)
   | "addall" -> M.OAddAll (v 1, v 2, M.m_keys (st (v 2)))
   | "rm" -> M.ORemove (v 1, l 2)
@@ -72,13 +76,26 @@ let build_op k st p : int M.op =
 let rec take n l = if n <= 0 then [] else match l with [] -> [] | x :: r -> x :: take (n - 1) r
 let rec drop n l = if n <= 0 then l else match l with [] -> [] | _ :: r -> drop (n - 1) r
 
-let show_res p (o : int M.out) =
+let ptr_of m = int_of_z (M.m_ptr m)
+
+(* which map is m, relative to the variables of the state before the call (st0) and the
+   allocator's frontier before the call *)
+let ident k st0 next0 m =
+  match m with
+  | None -> "nil"
+  | Some _ ->
+    let p = ptr_of m in
+    if p >= next0 then "new" else
+    let rec find j = if j >= k then "old" else if ptr_of (st0 (nat_of_int j)) = p then "v" ^ string_of_int j else find (j + 1) in
+    find 0
+
+let show_res k st0 next0 st1 p (o : int M.out) =
   let name = List.hd p in
   match o with
   | M.RSet m ->
-    (match name with
-     | "add" | "addall" | "rm" | "rmall" | "clear" -> "s10"
-     | _ -> "c" ^ b01 (m <> None) ^ "0")
+    let i = int_of' (nth_arg p 1) in
+    let eq = if ptr_of (st1 (nat_of_int i)) = ptr_of m then "=" else "!" in
+    "S" ^ ident k st0 next0 m ^ eq ^ "0"
   | M.RBool b -> "b" ^ b01 b
   | M.RInt z -> "i" ^ string_of_int (int_of_z z)
   | M.RElem x -> "e" ^ string_of_int x
@@ -88,14 +105,21 @@ let show_res p (o : int M.out) =
     "l" ^ b01 (s <> None) ^ ":" ^ str_ints (take n els) ^ ":" ^ str_ints (sorted (drop n els))
   | M.RPanicNilMap -> "PANIC:nil"
   | M.RPanicIndex -> "PANIC:index"
+  | M.RPanicNilFunc -> "PANIC:nil"
   | M.RBadOrder -> "BADORDER"
+  | M.RUnmodelled -> "UNMODELLED"
 
-let dump_model (m : int list option) =
+let res_ok = function M.Ok x -> x | _ -> failwith "model function is not Ok"
+
+let dump_model k st i =
+  let m = st (nat_of_int i) in
   match m with
   | None -> "n"
-  | Some l ->
-    let mask = String.concat "" (List.init mask_n (fun x -> b01 (M.has eqb m x))) in
-    string_of_int (int_of_z (M.len m)) ^ (if M.isEmpty m then "E" else "F") ^ ":" ^ mask ^ ":" ^ str_ints (sorted l)
+  | Some (_, l) ->
+    let mask = String.concat "" (List.init mask_n (fun x -> b01 (res_ok (M.has eqb m x)))) in
+    let rec first j = if j >= i then i else if ptr_of (st (nat_of_int j)) = ptr_of m then j else first (j + 1) in
+    string_of_int (int_of_z (res_ok (M.len m))) ^ (if res_ok (M.isEmpty m) then "E" else "F") ^ ":" ^ mask ^ ":" ^ str_ints (sorted l)
+    ^ "@" ^ string_of_int (first 0)
 
 let eval inp =
   match (try Some (parse_case inp) with Bad_syntax -> None) with
@@ -103,12 +127,17 @@ let eval inp =
   | Some (k, ops) ->
     if k < 1 || k > 8 then "?" else
     let st = ref (fun _ -> None) in
+    let next = ref M.next0 in
     let outs = List.map (fun p ->
       let res =
         match (try Some (build_op k !st p) with Bad_syntax | Failure _ -> None) with
         | None -> "?"
-        | Some o -> let (st', r) = M.step eqb zero !st o in st := st'; show_res p r in
-      String.concat "/" (res :: List.init k (fun i -> dump_model (!st (nat_of_int i))))) ops in
+        | Some o ->
+          let st0 = !st and n0 = int_of_pos !next in
+          let (st', r) = M.step eqb zero st0 !next o in
+          st := st'; next := M.bump !next;
+          show_res k st0 n0 st' p r in
+      String.concat "/" (res :: List.init k (fun i -> try dump_model k !st i with Failure _ -> "UNMODELLED"))) ops in
     String.concat ";" outs
 
 (* ---------------------------------------------------------------- the property on the implementation's output *)
@@ -119,26 +148,33 @@ let diff a b = List.filter (fun x -> not (List.mem x b)) a
 let inter a b = List.filter (fun x -> List.mem x b) a
 let subset a b = List.for_all (fun x -> List.mem x b) a
 
+(* a dump against the reference set r of variable i: nil-ness is free (tracked, not prescribed),
+   the rest is not *)
 let check_dump i (r : int list) d =
   if d = "n" then (if r = [] then None else Some (Printf.sprintf "v%d is nil but the reference set is {%s}" i (str_ints r)))
-  else match String.split_on_char ':' d with
-  | [le; mask; keys] ->
-    let n = String.length le in
-    if n < 2 then Some "bad dump" else
-    let len = int_of' (String.sub le 0 (n - 1)) and e = le.[n - 1] in
-    let wantmask = String.concat "" (List.init mask_n (fun x -> b01 (List.mem x r))) in
-    if len <> List.length r then Some (Printf.sprintf "v%d.Len() = %d, reference set {%s}" i len (str_ints r))
-    else if (e = 'E') <> (r = []) then Some (Printf.sprintf "v%d.IsEmpty() wrong, reference set {%s}" i (str_ints r))
-    else if mask <> wantmask then Some (Printf.sprintf "v%d.Has over 0..7 = %s, reference set {%s}" i mask (str_ints r))
-    else if keys <> str_ints r then Some (Printf.sprintf "v%d holds {%s}, reference set {%s}" i keys (str_ints r))
-    else None
+  else
+  match String.split_on_char '@' d with
+  | [body; a] ->
+    (match String.split_on_char ':' body with
+     | [le; mask; keys] ->
+       let n = String.length le in
+       if n < 2 then Some "bad dump" else
+       let len = int_of' (String.sub le 0 (n - 1)) and e = le.[n - 1] in
+       let wantmask = String.concat "" (List.init mask_n (fun x -> b01 (List.mem x r))) in
+       if len <> List.length r then Some (Printf.sprintf "v%d.Len() = %d, reference set {%s}" i len (str_ints r))
+       else if (e = 'E') <> (r = []) then Some (Printf.sprintf "v%d.IsEmpty() wrong, reference set {%s}" i (str_ints r))
+       else if mask <> wantmask then Some (Printf.sprintf "v%d.Has over 0..7 = %s, reference set {%s}" i mask (str_ints r))
+       else if keys <> str_ints r then Some (Printf.sprintf "v%d holds {%s}, reference set {%s}" i keys (str_ints r))
+       else if int_of' a <> i then Some (Printf.sprintf "v%d and v%s share one map" i a)
+       else None
+     | _ -> Some "bad dump")
   | _ -> Some "bad dump"
 
-let spec_case inp out =
-  let (k, ops) = parse_case inp in
+let spec_case k ops out =
   let outs = if out = "" then [] else String.split_on_char ';' out in
   if List.length outs <> List.length ops then Some "number of outputs differs from number of operations" else
-  let r = Array.make k [] in
+  let r = Array.make k [] in          (* reference sets *)
+  let isnil = Array.make k true in    (* nil-ness of every variable, read off the implementation's own dumps *)
   let fail n p why = Some (Printf.sprintf "op#%d %s: %s" n (String.concat ":" p) why) in
   let rec go n ops outs =
     match ops, outs with
@@ -149,33 +185,38 @@ let spec_case inp out =
       if res = "?" then go (n + 1) ops' outs' else
       let v a = let i = int_of' (nth_arg p a) in if i < 0 || i >= k then raise Bad_syntax else i in
       let l a = ints_of' (nth_arg p a) in
+      let lnil a = if nth_arg p a = "nil" then [] else l a in
       let i = v 1 in
       let expect_res want = if res = want then None else Some (Printf.sprintf "result %s, set theory says %s" res want) in
-      let fresh s = r.(i) <- s;
-        if String.length res <> 3 || res.[0] <> 'c' then Some ("result " ^ res)
-        else if res.[1] <> '1' then Some "the constructor returned a nil set"
-        else if res.[2] <> '0' then Some "the returned set shares storage with an argument or another variable"
+      (* the identity part of a result S<id><=|!><0|1> *)
+      let identity want why =
+        let n = String.length res in
+        if n < 4 || res.[0] <> 'S' then Some ("result " ^ res) else
+        let id = String.sub res 1 (n - 3) and eq = res.[n - 2] and pz = res.[n - 1] in
+        if id <> want then Some (Printf.sprintf "%s: returned map is '%s', must be '%s'" why id want)
+        else if eq <> '=' then Some "the receiver/destination variable does not hold the returned map"
+        else if pz <> '0' then Some "poisoning disagrees with the address comparison"
         else None in
-      let mutated s = r.(i) <- s;
-        if String.length res <> 3 || res.[0] <> 's' then Some ("result " ^ res)
-        else if res.[1] <> '1' then Some "the method did not return its receiver"
-        else if res.[2] <> '0' then Some "receiver and argument share storage after the call"
-        else None in
+      let fresh s = r.(i) <- s; identity "new" "the constructor must return a non-nil map that aliases no argument and no variable" in
+      let receiver s = r.(i) <- s; identity (if isnil.(i) then "nil" else "v" ^ string_of_int i) "the method must return its receiver" in
+      let receiver_alloc s = r.(i) <- s; identity (if isnil.(i) then "new" else "v" ^ string_of_int i) "the method must return its receiver (a new map for a nil receiver, never the argument)" in
       let verdict =
         match List.hd p with
-        | "new" | "range" | "keys" | "values" -> fresh (set_of (l 2))
+        | "new" -> fresh (set_of (l 2))
+        | "keys" | "values" -> fresh (set_of (lnil 2))
+        | "range" -> if nth_arg p 2 = "nil" then expect_res "PANIC:nil" else fresh (set_of (l 2))
         | "newsize" -> fresh []
-        | "nil" -> r.(i) <- []; None
+        | "nil" -> r.(i) <- []; expect_res "Snil=0"
         | "clone" -> fresh r.(v 2)
         | "isect" ->
           let js = l 2 in
           List.iter (fun j -> if j < 0 || j >= k then raise Bad_syntax) js;
           fresh (match js with [] -> [] | j :: rest -> List.fold_left (fun a j -> inter a r.(j)) r.(j) rest)
-        | "add" -> mutated (union r.(i) (l 2))
-        | "addall" -> mutated (union r.(i) r.(v 2))
-        | "rm" -> mutated (diff r.(i) (l 2))
-        | "rmall" -> mutated (diff r.(i) r.(v 2))
-        | "clear" -> mutated []
+        | "add" -> receiver_alloc (union r.(i) (l 2))
+        | "addall" -> receiver_alloc (union r.(i) r.(v 2))
+        | "rm" -> receiver (diff r.(i) (l 2))
+        | "rmall" -> receiver (diff r.(i) r.(v 2))
+        | "clear" -> receiver []
         | "pop" ->
           if r.(i) = [] then expect_res "e0"
           else if String.length res < 2 || res.[0] <> 'e' then Some ("result " ^ res)
@@ -194,10 +235,11 @@ let spec_case inp out =
         | "slice" | "append" ->
           let (prefix, order) = if List.hd p = "slice" then (".", l 2) else ((if nth_arg p 2 = "n" then "." else str_ints (l 2)), l 3) in
           (match String.split_on_char ':' res with
-           | [_nonnil; pre; rest] ->
+           | [nonnil; pre; rest] ->
              if pre <> prefix then Some "the given prefix was not preserved"
              else if rest <> str_ints r.(i) then Some (Printf.sprintf "listed {%s}, members {%s}: not each member exactly once" rest (str_ints r.(i)))
              else if sorted order <> r.(i) then Some "the recorded order is not an enumeration of the members"
+             else if List.hd p = "slice" && (nonnil = "l1") <> (r.(i) <> []) then Some "Slice must be nil exactly for the empty set"
              else None
            | _ -> Some ("result " ^ res))
         | _ -> raise Bad_syntax in
@@ -211,15 +253,34 @@ let spec_case inp out =
          (match chk 0 dumps with
           | Some x -> Some x
           | None ->
-            (* constructors: the variable itself must now be non-nil *)
-            (match List.hd p with
-             | "new" | "range" | "keys" | "values" | "newsize" | "clone" | "isect" when List.nth dumps i = "n" -> fail n p "the constructed set is nil"
-             | _ -> go (n + 1) ops' outs')))
+            (* nil-ness: only the receiver/destination may change it, and only as the API says *)
+            let nil_now = Array.of_list (List.map (fun d -> d = "n") dumps) in
+            let name = List.hd p in
+            let panicked = String.length res >= 5 && String.sub res 0 5 = "PANIC" in
+            let bad = ref None in
+            Array.iteri (fun j was ->
+              if !bad = None then
+                if j <> i || panicked then (if nil_now.(j) <> was then bad := Some (Printf.sprintf "nil-ness of v%d changed" j))
+                else match name with
+                  | "new" | "range" | "keys" | "values" | "newsize" | "clone" | "isect" | "add" | "addall" ->
+                    if nil_now.(j) then bad := Some "the constructed/receiving set is nil"
+                  | "nil" -> if not nil_now.(j) then bad := Some "nil assignment did not take"
+                  | _ -> if nil_now.(j) <> was then bad := Some (Printf.sprintf "nil-ness of v%d changed" j)) isnil;
+            (match !bad with
+             | Some why -> fail n p ("afterwards " ^ why)
+             | None -> Array.blit nil_now 0 isnil 0 k; go (n + 1) ops' outs')))
   in
   go 0 ops outs
 
 let spec prop inp out =
   if prop <> "C18" then None else
-  try spec_case inp out with Bad_syntax | Failure _ | Invalid_argument _ | Not_found -> None
+  match (try Some (parse_case inp) with Bad_syntax | Failure _ -> None) with
+  | None -> None                                  (* not an input of this harness *)
+  | Some (k, ops) ->
+    if k < 1 || k > 8 then None else
+    (* the input parses: from here on anything unreadable is the implementation's output *)
+    try spec_case k ops out with
+    | Bad_syntax -> if String.contains out '?' then None else Some "unreadable output"
+    | Failure _ | Invalid_argument _ | Not_found -> Some "unreadable output"
 
 let () = run_main ~eval ~spec
